@@ -79,6 +79,44 @@ fn join_queries() -> Vec<(&'static str, String)> {
     v
 }
 
+/// Hand-written shapes that put a filter above every operator kind the push-down can meet (projection with fresh /
+/// shadowing / swapped / computed aliases, expand with edge and path variables, variable-length expand, join, optional
+/// match, aggregate, distinct, sort + limit / skip, unwind, sub-query): whether the filter may travel below that
+/// operator is exactly what the rewrite decides.  Windows sit on a total pre-order whose ties are filtered alike, so
+/// the answer of a correct plan is determined.
+fn shape_queries() -> Vec<(&'static str, String)> {
+    [
+        ("with-fresh-alias", "MATCH (a)-[:K]->(b) WITH b AS c WHERE c.p = 1 RETURN c.p"),
+        ("with-shadow-alias", "MATCH (a)-[:K]->(b) WITH b AS a WHERE a.p = 1 RETURN a.p, a.s"),
+        ("with-swap-alias", "MATCH (a)-[:K]->(b) WITH b AS a, a AS b WHERE a.p = 1 RETURN a.p, b.p"),
+        ("with-computed", "MATCH (a) WITH a.p + 1 AS k WHERE k = 2 RETURN k"),
+        ("with-computed-shadow", "MATCH (a)-[:K]->(b) WITH a, b.p AS a2, a.p + 1 AS p WHERE p = 2 RETURN a.p, a2, p"),
+        ("with-passthrough", "MATCH (a)-[:K]->(b) WITH a, b WHERE a.p = 1 AND b.p = 1 RETURN a.p, b.p"),
+        ("with-two-levels", "MATCH (a)-[:K]->(b) WITH b AS a WITH a AS c WHERE c.p = 1 RETURN c.p"),
+        ("with-then-match", "MATCH (a)-[:K]->(b) WITH b AS a MATCH (a)-[:L]->(c) WHERE a.p = 1 RETURN a.p, c.p"),
+        ("with-or-alias", "MATCH (a)-[:K]->(b) WITH a, b AS x WHERE a.p = 1 OR x.p = 2 RETURN a.p, x.p"),
+        ("agg-having", "MATCH (a)-[:K]->(b) WITH a, COUNT(b) AS c WHERE c > 1 RETURN a.p, c"),
+        ("agg-key-filter", "MATCH (a)-[:K]->(b) WITH a.p AS k, COUNT(b) AS c WHERE k = 1 RETURN k, c"),
+        ("distinct-filter", "MATCH (a)-[:K]->(b) WITH DISTINCT a.p AS k WHERE k = 1 RETURN k"),
+        ("limit-then-filter", "MATCH (a) WITH a ORDER BY a.p DESC LIMIT 1 WHERE a.p = 1 RETURN a.p"),
+        ("skip-then-filter", "MATCH (a) WITH a ORDER BY a.p DESC SKIP 1 WHERE a.p = 1 RETURN a.p"),
+        ("edge-type-filter", "MATCH (a)-[e]->(b) WHERE type(e) = 'K' AND a.p = 1 RETURN a.p, b.p"),
+        ("varlen-path-length", "MATCH p = (a)-[:K*1..2]->(b) WHERE length(p) = 2 RETURN a.p, b.p"),
+        ("varlen-endpoints", "MATCH (a)-[:K*1..2]->(b) WHERE a.p = 1 AND b.p = 2 RETURN a.p, b.p"),
+        ("optional-where", "MATCH (a) OPTIONAL MATCH (a)-[:L]->(b) WHERE b.p = 1 RETURN a.p, b.p"),
+        ("optional-then-filter", "MATCH (a) OPTIONAL MATCH (a)-[:L]->(b) WITH a, b WHERE b.p = 1 RETURN a.p, b.p"),
+        ("optional-null-filter", "MATCH (a) OPTIONAL MATCH (a)-[:L]->(b) WITH a, b WHERE b IS NULL RETURN a.p"),
+        ("unwind-filter", "UNWIND [1, 2] AS x MATCH (a) WHERE a.p = x RETURN a.p, x"),
+        ("unwind-then-filter", "MATCH (a) UNWIND [1, 2] AS x WITH a, x WHERE x = a.p RETURN a.p, x"),
+        ("exists-subquery", "MATCH (a) WHERE EXISTS { MATCH (a)-[:K]->(b) WHERE b.p = 1 } RETURN a.p"),
+        ("join-both-sides", "MATCH (a:A), (b:B) WHERE a.p = b.p RETURN a.p, b.p"),
+        ("join-alias-side", "MATCH (a:A), (b:B) WITH a AS b, b AS a WHERE a.p = 2 RETURN a.p, b.p"),
+    ]
+    .into_iter()
+    .map(|(n, t)| (n, t.to_string()))
+    .collect()
+}
+
 struct Case<'a> {
     lang: Lang,
     text: String,
@@ -210,8 +248,9 @@ fn run(args: vcore::Args) -> i32 {
     graphs.push(dense_graph());
     let depth = tier.pick(2, 3);
     let queries = all_queries(depth);
-    let joins = join_queries();
-    rep.rule = format!("every graph of {:?} (+ one dense 3-node graph) x every query of the core grammar up to weight {depth} and 7 hand-written 3-relation joins x {{GQL, Cypher}} x 2^3 optimizer switches x 3 statistics states; oracle: pairwise equal answers; distinct non-trivial = (graph, query, language) with a non-empty answer", space.to_json());
+    let mut joins = join_queries();
+    joins.extend(shape_queries());
+    rep.rule = format!("every graph of {:?} (+ one dense 3-node graph) x every query of the core grammar up to weight {depth} and 7 hand-written 3-relation joins and 25 hand-written filter-above-operator shapes x {{GQL, Cypher}} x 2^3 optimizer switches x 3 statistics states; oracle: pairwise equal answers; distinct non-trivial = (graph, query, language) with a non-empty answer", space.to_json());
     let results = vcore::par_map(&graphs, vcore::cores(), |gi, g| {
         let (db, ids) = load(g);
         let stale = stale_db(g);
@@ -219,6 +258,7 @@ fn run(args: vcore::Args) -> i32 {
         let mut evals = 0u64;
         let mut nontrivial = vec![];
         let mut cases: Vec<Case> = vec![];
+        let mut accepted: std::collections::BTreeSet<String> = Default::default();
         for q in &queries {
             for lang in [Lang::Gql, Lang::Cypher] {
                 if let Some(text) = render(q, lang) {
@@ -234,15 +274,20 @@ fn run(args: vcore::Args) -> i32 {
         for (ci, c) in cases.iter().enumerate() {
             let (v, n, nonempty) = judge(g, &ids, &db, &stale, c);
             evals += n;
+            if n > 0 && c.q.is_none() {
+                accepted.insert(format!("{}/{}", c.lang.name(), c.feats[0].1));
+            }
             if nonempty {
                 nontrivial.push(vcore::hash_of(&(gi, ci)));
             }
             viols.extend(v);
         }
-        (viols, evals, nontrivial, cases.len())
+        (viols, evals, nontrivial, cases.len(), accepted)
     });
     let mut ncases = 0usize;
-    for (viols, evals, nontrivial, n) in results {
+    let mut accepted_all: std::collections::BTreeSet<String> = Default::default();
+    for (viols, evals, nontrivial, n, acc) in results {
+        accepted_all.extend(acc);
         rep.evaluations += evals;
         ncases += n;
         for h in nontrivial {
@@ -255,6 +300,7 @@ fn run(args: vcore::Args) -> i32 {
     rep.set("graphs", json!(graphs.len()));
     rep.set("queries_from_grammar", json!(queries.len()));
     rep.set("graph_query_language_cases", json!(ncases));
+    rep.set("hand_written_shapes_accepted_by_translator_and_binder", json!(accepted_all));
     rep.sample(json!({"graph": graphs[graphs.len() / 2].pretty(), "query": render(&queries[queries.len() / 2], Lang::Gql)}));
     rep.sample(json!({"join_query": joins[0].1}));
     rep.assumptions.push("where a query has SKIP/LIMIT without a total order on that graph, only the number of rows is compared (which rows fall into the window is not determined)".into());
